@@ -28,6 +28,11 @@ structure Sys where
 def Sys.init (n0 : Nat) : Sys :=
   { flags := {}, monCur := n0, chanCur := n0, inflight := none, released := [], signReq := [], chanClosed := false }
 
+/-- a fresh channel of either funding mode: `manual` = funded through funding_transaction_generated_manual_broadcast,
+    `seen` = its funding transaction was already seen on chain (any other flag clear) -/
+def Sys.initF (n0 : Nat) (manual seen : Bool) : Sys :=
+  { Sys.init n0 with flags := { isManualBroadcast := manual, fundingSeenOnchain := seen } }
+
 inductive Ev where
   /-- the channel accepts a commitment_signed; `persistCompleted` = what the persister answers -/
   | csRecv (persistCompleted : Bool)
@@ -36,6 +41,16 @@ inductive Ev where
   /-- the monitor queues / signs its latest holder commitment (user force-close, HTLC timeout on chain,
       ChannelForceClosed { should_broadcast }) or a holder HTLC transaction on it -/
   | sign
+  /-- mirrors queue_latest_holder_commitment_txn_for_broadcast(require_funding_seen) (ChannelForceClosed { should_broadcast },
+      user broadcast): holder_tx_signed is set ALWAYS; the commitment is signed / queued unless the GENERATED
+      `skipBroadcastUntilFundingSeen` holds (manual-broadcast funding not yet seen on chain) -/
+  | goOnChain (requireFundingSeen : Bool)
+  /-- mirrors block_confirmed when should_broadcast_holder_commitment_txn fires (an HTLC timed out): holder_tx_signed is set,
+      the claims are queued iff the GENERATED `timeoutBroadcastAllowed` -/
+  | htlcTimeout
+  /-- mirrors transactions_confirmed seeing the funding transaction: funding_seen_onchain := true, and the holder commitment is
+      broadcast now iff the GENERATED `broadcastOnFundingSeen` (manual broadcast, marked earlier) -/
+  | fundingSeen
   | lockdown
   | spendSeen
   /-- the channel is closed off-chain (error, force close event processed): nothing held is ever released -/
@@ -60,6 +75,15 @@ def step (s : Sys) : Ev → Option Sys
     | some (n, false) => if s.chanClosed then none else some { s with inflight := none, released := n :: s.released }
     | _ => none
   | .sign => some { s with flags := { s.flags with holderTxSigned := true }, signReq := s.monCur :: s.signReq }
+  | .goOnChain rfs =>
+    let f := { s.flags with holderTxSigned := true }
+    some { s with flags := f, signReq := if skipBroadcastUntilFundingSeen rfs f then s.signReq else s.monCur :: s.signReq }
+  | .htlcTimeout =>
+    let f := { s.flags with holderTxSigned := true }
+    some { s with flags := f, signReq := if timeoutBroadcastAllowed f then s.monCur :: s.signReq else s.signReq }
+  | .fundingSeen =>
+    let f := { s.flags with fundingSeenOnchain := true }
+    some { s with flags := f, signReq := if broadcastOnFundingSeen s.flags.fundingSeenOnchain f then s.monCur :: s.signReq else s.signReq }
   | .lockdown => some { s with flags := { s.flags with lockdownFromOffchain := true } }
   | .spendSeen => some { s with flags := { s.flags with fundingSpendSeen := true } }
   | .closeChan => some { s with chanClosed := true, inflight := none }
